@@ -5,7 +5,7 @@
    generic definitions instantiated at binary64 are what the correspondence check runs against
    src/linear/{linear_regression,ridge_regression}.rs.  Rounding-error bounds are not theorems. *)
 From Coq Require Import List Arith Bool Reals Lra Lia.
-From SC Require Import Base.Num C01.Model C01.Proofs C03.ProofsBase C07.Model C07.ProofsBase.
+From SC Require Import Base.Num C01.Model C01.Proofs C03.ProofsBase C07.Model C07.ProofsObj C07.ProofsFit.
 Import ListNotations.
 Open Scope R_scope.
 
